@@ -4,7 +4,23 @@
    history the path is routed to; dg f is the file's current digest text in format f; `validate_record` is
    history._validate_new_hash_list.  The same `seal` / `validate_records` are what Model/Create.v calls for every
    file and what the extracted model executes against the real tool. *)
-From MHL Require Import Model.Seal Model.Commands Proofs.BaseFacts Proofs.SealFacts Proofs.TreeFacts Proofs.VerifyFacts Proofs.FlatFacts Proofs.InfoFacts Proofs.PackFacts Proofs.ShapeFacts Proofs.ReloadFacts Proofs.NestedFacts.
+From MHL Require Import Model.Seal Model.Commands Proofs.BaseFacts Proofs.SealFacts Proofs.TreeFacts Proofs.VerifyFacts Proofs.FlatFacts Proofs.InfoFacts Proofs.PackFacts Proofs.ShapeFacts Proofs.ReloadFacts Proofs.NestedFacts Gen.GeneratedFns Proofs.SourceLookupFacts.
+
+(* THE TIE OF THE LOOKUPS TO THE SOURCE.  `find_original` and `find_first` -- which every statement below (and every statement
+   about sealing and verifying elsewhere) is made with -- are not only transcribed by hand: translator/gen.py translates
+   MHLHistory.find_original_hash_entry_for_path and MHLHistory.find_first_hash_entry_for_path from the current source on
+   every run (Gen/GeneratedFns.v: the loop over the generations, the skipped generations, the loop over the entries and
+   its conditions), and these obligations say that the result is the model's function.  A change of either method's
+   conditions, of what it skips, or of what it returns breaks them (or the translation, which is fail-closed). *)
+Theorem C04_source_find_original_is_the_models : forall gens p, src_find_original gens p = find_original gens p.
+Proof. exact src_find_original_is_model. Qed.
+Print Assumptions C04_source_find_original_is_the_models.
+Theorem C04_source_find_first_is_the_models : forall gens p f, src_find_first gens p (Some f) = find_first gens p f.
+Proof. exact src_find_first_is_model. Qed.
+Print Assumptions C04_source_find_first_is_the_models.
+Theorem C04_source_find_first_without_format_is_the_models : forall gens p, src_find_first gens p None = find_first_any gens p.
+Proof. exact src_find_first_any_is_model. Qed.
+Print Assumptions C04_source_find_first_without_format_is_the_models.
 
 (* closed form of the record written for a file: the re-checked entries of recorded formats, then -- only if none of
    them failed -- the entries of the formats that are new for the path *)
